@@ -20,18 +20,19 @@ unsigned long g_clock;
 static unsigned long tick(void) { __CPROVER_assume(g_clock < (1ul << 40)); return ++g_clock; }
 uint64_t g_next_file, g_table_number;
 int g_pending_has;              /* the table number is in pending_outputs                     */
-int g_pending_puts, g_pending_dels;
-int g_build_calls, g_build_rc; uint64_t g_build_size;
+unsigned g_pending_puts, g_pending_dels;
+unsigned g_build_calls; int g_build_rc; uint64_t g_build_size;
 int g_pick_calls, g_pick_level;
-int g_addfile_calls; int g_af_level; uint64_t g_af_number, g_af_size;
+unsigned g_addfile_calls; int g_af_level; uint64_t g_af_number, g_af_size;
 int g_apply_calls, g_apply_rc;
-int g_e_has_log, g_e_has_prev; uint64_t g_e_log, g_e_prev; int g_e_files;
-int g_imm_unrefs, g_base_refs, g_base_unrefs, g_iter_creates, g_iter_destroys;
+int g_e_has_log, g_e_has_prev; uint64_t g_e_log, g_e_prev; unsigned g_e_files;
+unsigned g_imm_unrefs, g_base_refs, g_base_unrefs, g_iter_creates, g_iter_destroys;
 unsigned long g_t_build, g_t_apply, g_t_gc, g_t_immnull;
 unsigned g_broadcasts; int g_bgerr0;
 ldb_memtable_t g_imm_obj; ldb_version_t g_base_obj; ldb_iter_t g_iter_obj;
 int g_sched_calls;
 int g_needs_compaction;
+int g_mode_recover; ldb_memtable_t g_rmem_obj; unsigned g_rmem_unrefs; unsigned g_flushes;
 
 /* ---------------------------------------------------------- thread model */
 void ldb_mutex_lock(ldb_mutex_t *m) { __CPROVER_assert(m == &g_db->mutex && !g_held, "lock: DB mutex not held"); g_held = 1; g_locks++; }
@@ -47,7 +48,7 @@ const char *ldb_strerror(int code) { return "e"; }
 uint64_t ldb_versions_new_file_number(ldb_versions_t *vset) { g_table_number = g_next_file; return g_next_file++; }
 int ldb_rb_set64_put(rb_tree_t *tree, uint64_t item) { __CPROVER_assert(tree == &g_db->pending_outputs && item == g_table_number, "the new table's number is protected in pending_outputs"); g_pending_has = 1; g_pending_puts++; return 1; }
 int ldb_rb_set64_del(rb_tree_t *tree, uint64_t item) { __CPROVER_assert(tree == &g_db->pending_outputs && item == g_table_number, "pending_outputs entry released"); g_pending_has = 0; g_pending_dels++; return 1; }
-ldb_iter_t *ldb_memiter_create(const ldb_memtable_t *mt) { __CPROVER_assert(mt == &g_imm_obj, "the flush reads the immutable memtable"); g_iter_creates++; return &g_iter_obj; }
+ldb_iter_t *ldb_memiter_create(const ldb_memtable_t *mt) { __CPROVER_assert(mt == (g_mode_recover ? &g_rmem_obj : &g_imm_obj), "the flush reads the immutable (or recovered) memtable"); g_iter_creates++; return &g_iter_obj; }
 void ldb_iter_destroy(ldb_iter_t *it) { g_iter_destroys++; }
 void ldb_filemeta_init(ldb_filemeta_t *meta) { meta->refs = 0; meta->allowed_seeks = (1 << 30); meta->number = 0; meta->file_size = 0; meta->smallest.data = NULL; meta->smallest.size = 8; meta->largest.data = NULL; meta->largest.size = 8; }
 void ldb_filemeta_clear(ldb_filemeta_t *meta) { }
@@ -57,13 +58,13 @@ void ldb_edit_set_log_number(ldb_edit_t *edit, uint64_t num) { edit->has_log_num
 void ldb_edit_set_prev_log_number(ldb_edit_t *edit, uint64_t num) { edit->has_prev_log_number = 1; edit->prev_log_number = num; }
 void ldb_version_ref(ldb_version_t *v) { __CPROVER_assert(v == &g_base_obj, "base version pinned"); g_base_refs++; }
 void ldb_version_unref(ldb_version_t *v) { __CPROVER_assert(v == &g_base_obj, "base version unpinned"); g_base_unrefs++; }
-void ldb_memtable_unref(ldb_memtable_t *mt) { __CPROVER_assert(mt == &g_imm_obj, "only the flushed memtable is released"); g_imm_unrefs++; }
+void ldb_memtable_unref(ldb_memtable_t *mt) { if (g_mode_recover) { __CPROVER_assert(mt == &g_rmem_obj, "recovery memtable released"); g_rmem_unrefs++; return; } __CPROVER_assert(mt == &g_imm_obj, "only the flushed memtable is released"); g_imm_unrefs++; }
 
 int ldb_build_table(const char *dbname, const ldb_dbopt_t *options, ldb_tables_t *table_cache, ldb_iter_t *iter, ldb_filemeta_t *meta) {
   __CPROVER_assert(!g_held, "the table is built with the mutex released");
   __CPROVER_assert(g_pending_has && meta->number == g_table_number, "while the table file is being written its number is in pending_outputs (not collectable)");
   __CPROVER_assert(iter == &g_iter_obj, "table is built from the memtable iterator");
-  g_build_calls++; g_build_rc = nondet_int(); g_build_size = nondet_u64(); __CPROVER_assume(g_build_size < (1ull << 50));
+  g_build_calls++; if (g_mode_recover) g_flushes++; g_build_rc = nondet_int(); g_build_size = nondet_u64(); __CPROVER_assume(g_build_size < (1ull << 50));
   /* builder contract (db.build): failure or empty input leave file_size 0 and no file behind */
   if (g_build_rc != LDB_OK) g_build_size = 0;
   meta->file_size = g_build_size;
@@ -102,7 +103,7 @@ static ldb_t *setup_db(void) {
   g_held = 1; g_locks = 1; g_unlocks = 0; g_clock = 0;
   g_pending_has = 0; g_pending_puts = g_pending_dels = 0; g_build_calls = 0; g_pick_calls = 0; g_addfile_calls = 0; g_apply_calls = 0;
   g_imm_unrefs = g_base_refs = g_base_unrefs = g_iter_creates = g_iter_destroys = 0; g_broadcasts = 0; g_gc_allowed = 0; g_gc_calls = 0; g_sched_calls = 0; g_copied_pending = 0; g_added_versions = 0;
-  g_t_build = g_t_apply = g_t_gc = 0;
+  g_t_build = g_t_apply = g_t_gc = 0; g_mode_recover = 0;
   __CPROVER_assume(g_next_file < (1ull << 60));
   __CPROVER_assume(g_len >= -1 && g_k >= 0 && (g_len <= 0 || g_k < g_len));
   return db;
@@ -142,5 +143,119 @@ void h_flush(void) {
     CHECK(!g_copied_pending, "flush failed: nothing is garbage-collected");
   }
   if (g_build_rc != LDB_OK || shut) CHECK(g_apply_calls == 0, "no MANIFEST edit after a failed table build or during shutdown");
+  CANARY();
+}
+
+/* ----------------------------------------------------------- db.recoverlog
+ * ldb_recover_log_file: replay of one write-ahead log at open.
+ * The log reader is a ghost model obeying the contract proved in log.read
+ * (whole records, last_end = offset just past the last returned record); an
+ * arbitrary, unbounded number of records; ONE arbitrary record g_rk is tracked. */
+unsigned g_rmem_creates, g_rmem_refs;
+unsigned long g_recs_left;        /* records the file still holds (arbitrary, finite)            */
+long g_rec_idx;                   /* read_record calls so far                                     */
+long g_rk;                        /* tracked record index                                         */
+size_t g_rsize_k; uint64_t g_rseq_k; int g_rcnt_k;   /* its size / batch sequence / batch count   */
+long g_cur_batch_idx;             /* index of the record currently loaded into the batch          */
+unsigned g_rins_k; int g_rins_rc_k; unsigned g_rreports_k;
+uint64_t g_last_end, g_file_size; /* reader position after the last whole record / real file size */
+int g_reader_inited, g_reader_checksum; uint64_t g_reader_initial;
+int g_seqfile_rc, g_appendfile_calls, g_wcreate_calls; uint64_t g_wcreate_len;
+size_t g_usage;
+ldb_wfile_t g_reuse_file; ldb_writer_t g_reuse_writer; ldb_rfile_t *g_seqfile;
+struct ldb_rfile_s { int dummy; }; struct ldb_rfile_s g_rfile_obj;
+struct ldb_wfile_s { int dummy; };
+
+int ldb_log_filename(char *buf, size_t size, const char *dbname, uint64_t num) { buf[0] = 'L'; buf[1] = 0; return 1; }
+int ldb_seqfile_create(const char *filename, ldb_rfile_t **file) { g_seqfile_rc = nondet_int(); if (g_seqfile_rc == LDB_OK) *file = &g_rfile_obj; return g_seqfile_rc; }
+void ldb_rfile_destroy(ldb_rfile_t *file) { }
+void ldb_reader_init(ldb_reader_t *lr, ldb_rfile_t *file, ldb_reporter_t *reporter, int checksum, uint64_t initial_offset) {
+  g_reader_inited++; g_reader_checksum = checksum; g_reader_initial = initial_offset;
+  lr->reporter = reporter; lr->last_end = 0; g_last_end = 0;
+}
+void ldb_reader_clear(ldb_reader_t *lr) { }
+int ldb_reader_read_record(ldb_reader_t *lr, ldb_slice_t *record, ldb_buffer_t *scratch) {
+  uint64_t adv;
+  /* damage met before the next whole record is reported (may set the caller's status in paranoid mode) */
+  /* (the reporter's callback is db_impl.c's report_corruption; called directly to keep the loop free of function pointers) */
+  if (nondet_int()) { __CPROVER_assert(lr->reporter->corruption == report_corruption, "reader reports through db_impl.c's report_corruption"); report_corruption(lr->reporter, nondet_size(), LDB_CORRUPTION); }
+  if (g_recs_left == 0) return 0;
+  g_recs_left--;
+  record->size = (g_rec_idx == g_rk) ? g_rsize_k : nondet_size();
+  record->data = NULL;
+  adv = nondet_u64();
+  __CPROVER_assume(adv >= 7 && adv <= g_file_size - g_last_end);   /* a whole record lies inside the file */
+  g_last_end += adv; lr->last_end = g_last_end;
+  g_rec_idx++;
+  return 1;
+}
+void ldb_batch_init(ldb_batch_t *b) { }
+void ldb_batch_clear(ldb_batch_t *b) { }
+void ldb_buffer_init(ldb_buffer_t *z) { z->data = NULL; z->size = 0; z->alloc = 0; }
+void ldb_buffer_clear(ldb_buffer_t *z) { }
+void ldb_batch_set_contents(ldb_batch_t *b, const ldb_slice_t *contents) {
+  __CPROVER_assert(contents->size >= 12, "only records with a complete 12-byte batch header are applied");
+  g_cur_batch_idx = g_rec_idx - 1;
+}
+ldb_seqnum_t ldb_batch_sequence(const ldb_batch_t *b) { if (g_cur_batch_idx == g_rk) return g_rseq_k; { uint64_t s = nondet_u64(); __CPROVER_assume(s >= 1 && s < (1ull << 56)); return s; } }
+int ldb_batch_count(const ldb_batch_t *b) { if (g_cur_batch_idx == g_rk) return g_rcnt_k; { int c = nondet_int(); __CPROVER_assume(c >= 0 && c < (1 << 28)); return c; } }
+int ldb_batch_insert_into(const ldb_batch_t *b, ldb_memtable_t *table) {
+  int rc = nondet_int();
+  __CPROVER_assert(table == &g_rmem_obj, "replayed batches go into the recovery memtable");
+  if (g_cur_batch_idx == g_rk) { g_rins_k++; g_rins_rc_k = rc; }
+  return rc;
+}
+ldb_memtable_t *ldb_memtable_create(const ldb_comparator_t *cmp) { g_rmem_creates++; return &g_rmem_obj; }
+void ldb_memtable_ref(ldb_memtable_t *mt) { g_rmem_refs++; }
+size_t ldb_memtable_usage(const ldb_memtable_t *mt) { return g_usage = nondet_size(); }
+int ldb_file_size(const char *filename, uint64_t *size) { int rc = nondet_int(); if (rc == LDB_OK) *size = g_file_size; return rc; }
+int ldb_appendfile_create(const char *filename, ldb_wfile_t **file) { int rc = nondet_int(); g_appendfile_calls++; if (rc == LDB_OK) *file = &g_reuse_file; return rc; }
+ldb_writer_t *ldb_writer_create(ldb_wfile_t *file, uint64_t length) {
+  /* precondition of ldb_writer_init (log.init): the file is a framed prefix of `length` bytes */
+  __CPROVER_assert(file == &g_reuse_file && length == g_file_size, "reused log: the writer continues at the real end of the file");
+  __CPROVER_assert(g_last_end == g_file_size, "a log is reopened for appending only if its last complete record ends exactly at the end of the file (no torn or damaged tail to append after)");
+  g_wcreate_calls++; g_wcreate_len = length;
+  return &g_reuse_writer;
+}
+
+void h_recoverlog(void) {
+  ldb_t *db = setup_db();
+  ldb_edit_t edit;
+  ldb_seqnum_t max_seq, max0;
+  int save_manifest = 0, last_log = nondet_int() ? 1 : 0, rc;
+  long total;
+  g_mode_recover = 1;
+  db->mem = NULL; db->log = NULL; db->logfile = NULL; db->imm = NULL;
+  __CPROVER_assume(db->options.reuse_logs == 0 || db->options.reuse_logs == 1);
+  __CPROVER_assume(db->options.paranoid_checks == 0 || db->options.paranoid_checks == 1);
+  g_rmem_creates = g_rmem_unrefs = g_rmem_refs = 0; g_rec_idx = 0; g_cur_batch_idx = -1; g_rins_k = 0; g_rreports_k = 0; g_flushes = 0;
+  g_reader_inited = 0; g_appendfile_calls = 0; g_wcreate_calls = 0; g_last_end = 0;
+  __CPROVER_assume(g_rk >= 0 && g_recs_left < (1ul << 30) && g_file_size < (1ull << 60));
+  __CPROVER_assume(g_rseq_k >= 1 && g_rseq_k < (1ull << 56) && g_rcnt_k >= 0 && g_rcnt_k < (1 << 28));
+  __CPROVER_assume(max_seq < (1ull << 56));
+  { int l; for (l = 0; l < 3; l++) { __CPROVER_assume(db->stats[l].micros >= 0 && db->stats[l].micros < (1ll << 50) && db->stats[l].bytes_read >= 0 && db->stats[l].bytes_read < (1ll << 50) && db->stats[l].bytes_written >= 0 && db->stats[l].bytes_written < (1ll << 50)); } }
+  max0 = max_seq; total = (long)g_recs_left;
+
+  rc = ldb_recover_log_file(db, nondet_u64(), last_log, &save_manifest, &edit, &max_seq);
+
+  CHECK(g_held, "recover_log_file: mutex still held");
+  if (g_seqfile_rc == LDB_OK) CHECK(g_reader_inited == 1 && g_reader_checksum == 1 && g_reader_initial == 0, "the recovery reader verifies checksums (even without paranoid_checks) and starts at offset 0");
+  CHECK(max_seq >= max0, "max_sequence never decreases");
+  if (rc == LDB_OK && g_seqfile_rc == LDB_OK && g_rk < g_rec_idx) {
+    /* the tracked record was read and the replay finished OK */
+    if (g_rsize_k >= 12) {
+      CHECK(g_rins_k == 1, "every whole log record with a batch header is applied exactly once, as one batch");
+      if (g_rins_rc_k == LDB_OK) CHECK(max_seq >= g_rseq_k + (uint64_t)g_rcnt_k - 1 || g_rcnt_k == 0, "max_sequence covers the last sequence number of every applied batch");
+    } else CHECK(g_rins_k == 0, "a record shorter than a batch header is skipped (reported), never applied");
+  }
+  if (rc == LDB_OK && g_seqfile_rc == LDB_OK) CHECK(g_recs_left == 0 || db->options.paranoid_checks, "OK: the whole log was read (without paranoid_checks damage is skipped, not fatal)");
+  /* log reuse */
+  if (g_wcreate_calls) {
+    CHECK(db->options.reuse_logs && last_log && g_flushes == 0 && rc == LDB_OK, "a log is reused only with reuse_logs, for the last log, when nothing was flushed during replay");
+    CHECK(db->log == &g_reuse_writer && db->logfile == &g_reuse_file && db->mem == &g_rmem_obj && g_rmem_unrefs == 0 && g_rmem_creates == 1, "reused log: it becomes the current log and the replayed memtable (kept, not flushed) the current memtable");
+  } else {
+    CHECK(db->log == NULL && db->logfile == NULL && db->mem == NULL, "no reuse: no current log yet (ldb_open creates a fresh one)");
+    if (rc == LDB_OK && g_seqfile_rc == LDB_OK) CHECK(g_flushes == g_rmem_creates && g_rmem_unrefs == g_rmem_creates && (g_rmem_creates == 0 || save_manifest == 1), "replayed data that is not kept in a reused log is flushed to a table (every recovery memtable exactly once) and the MANIFEST is rewritten");
+  }
   CANARY();
 }
